@@ -721,7 +721,7 @@ def _sys_worker(args):
 def run_systematic(seed, tier):
     exe, meta = build_thr('tsan-cm')
     metapath = os.path.join(os.path.dirname(exe), 'src', 'shapes.json')
-    nprog, cap, nch = (4, 400, 16) if tier == "quick" else (12, 3000, 64)
+    nprog, cap, nch = (4, 400, 16) if tier == "quick" else (6, 1500, 32)
     tasks = [(exe, metapath, seed, c, nprog, cap) for c in range(nch)]
     tot = dict(programs=0, schedules=0, exhaustive_programs=0, decisions=0, lin_nodes=0, lin_budget=0, max_sched=0)
     viol, inconc, samples = [], [], []
